@@ -79,14 +79,15 @@ add("C01", "pipe", "exploration",
     "property-based testing (rapid): grammar-generated declarations with odd whitespace rendered through recording generators; differential against go/parser, go/scanner, go/format and gofumpt",
     "Generators render declarations drawn from a Go grammar (funcs, methods, var/const/type, literals, comments, directives, imports through snippet.ID) with "
     "hostile whitespace; after Execute each written file must parse, open with a comment naming its generator (whole word), declare the spec's package name, "
-    "hold exactly the recorded rendered tokens and comments in order, and be a fixed point of go/format.Source and of gofumpt for the module's go version and path.",
+    "hold exactly the recorded rendered tokens and comments in order, and be a fixed point of go/format.Source and of gofumpt for the module's go version and path. "
+    "A writefault sub lowers RLIMIT_FSIZE around Execute in a child process: Execute must fail or the file must be complete.",
     "Trusts go/scanner, go/parser, go/format and mvdan.cc/gofumpt as reference; token equality is asserted only for the grammar, which avoids gofmt -s / gofumpt token rewrites.",
     "DESIGN.md section 3, C01")
 
 add("C04", "pipe", "exploration",
     "property-based testing (rapid): repeated runs, fresh-process runs and permuted entrypoints from one initial tree must agree byte for byte; re-run on the result must be a fixed point",
     "From the same initial tree 3 in-process runs, a run in a fresh child process and runs with permuted entrypoint lists must produce byte-identical generated files, "
-    "gengo.sum and GenerateType call sequences; a further run on the result must change no generated file and, with All, a third run nothing at all. "
+    "gengo.sum and GenerateType call sequences (also with the generators listed in reverse order, and the second run made by a fresh process); a further run on the result must change no generated file and, with All, a third run nothing at all. "
     "Generators echo everything order-sensitive gengo hands them (type order, doc lines, tags, map literal, imports).",
     "Map-iteration orders are sampled by repetition (a 2-way order dependence escapes one case with p<=2^-4, and there are hundreds of cases).",
     "DESIGN.md section 3, C04")
@@ -112,7 +113,7 @@ add("C02", "pipe", "fault_enumeration",
     "enumerated and injected with fault kinds round-robin (17 in-process kinds, os.Exit and SIGKILL in a child process). Error kinds: Execute returns non-nil without "
     "panicking, the message names generator+package or a file:line:col position, the generator's previous file is byte-identical (or still absent), gengo.sum untouched. "
     "Death kinds: non-zero exit, gengo.sum untouched, a clean re-run reaches the never-crashed state. ErrSkip/ErrIgnore (plain, wrapped) must not fail.",
-    "Faults are injected at generator-visible points only; no faults inside gengo's own write loop, no disk-full/EIO.",
+    "Faults are injected at generator-visible points only (write faults are covered by C01's writefault sub); every third error point also retries Execute on the same Executor.",
     "DESIGN.md section 3, C02")
 
 add("C13", "univ", "exploration",
@@ -121,7 +122,7 @@ add("C13", "univ", "exploration",
     "named/blank imports, a replaced sibling module) are loaded with types.Load and every package of the closure is compared with go/types: table keys and object "
     "identity against Pkg().Scope(), MethodsOf against Named.Method(i), Imports() against Package.Imports and Universe.Package, SourceDir/LocateInPackage against the file "
     "directories. The same comparison sweeps all ~195 packages of /repo's own closure (std included).",
-    "go/types is the reference; blank-named entries and init are ignored, interfaces skipped for MethodsOf.",
+    "go/types is the reference; blank-named functions and init are ignored, interfaces skipped for MethodsOf; a cgo package and a net/http importer are swept too.",
     "DESIGN.md section 3, C13")
 
 add("C12", "univ", "exploration",
@@ -137,7 +138,7 @@ add("C14", "univ", "exploration",
     "Generated two-package modules exercise recursion through every result index, named results, bare returns, multi-value forwarding, method/interface/cross-package "
     "calls and closure arguments with fewer/equal/more results; every function of the module, and every one of the ~11,600 functions, methods and interface methods of "
     "/repo's dependency closure, is checked in a child process (crash or stack overflow = violation, timeout = inconclusive): declared count, n non-empty lists, each "
-    "alternative a constant or a type assignable to the declared result, same answer twice; literal-only functions must yield exactly the harness's values in source order.",
+    "alternative a constant or a type assignable to the declared result, same answer twice, again after all other functions were asked, and from a second universe asked in the opposite order; literal-only functions must yield exactly the harness's values in source order.",
     "Trusts go/types.AssignableTo and go/constant; one hand-built known finding (unnamed intermediate slice) is replayed and reported as KNOWN-FINDING.",
     "DESIGN.md section 3, C14")
 
@@ -181,7 +182,7 @@ add("C18", "gen", "exploration",
     "Generated modules (origin structs with scalar/slice/map/array/pointer/foreign/error/interface/nested-origin fields and hostile backquote-free tags; declaring "
     "package with `type x origin.T`, omit and replace tags, grouped and ungrouped) are processed by the real generator; a harness-written test compares reflect.TypeOf(X) "
     "with the origin (fields minus omitted, order, type identity, tags, replacements), checks DeepCopyAs(nil) == nil and, for a reflect-filled source, equality of "
-    "every retained field and zero for every omitted one. Eleven declarations that are not structs defined from a named type must fail without writing a file.",
+    "every retained field and zero for every omitted one. Sixteen declarations that are not structs defined from a named type must fail without writing a file; a samepackage sub covers origins declared in the declaring package.",
     "Trusts the Go toolchain and reflect; embedded origin fields and tags with backquotes are outside the domain.",
     "DESIGN.md section 3, C18")
 
